@@ -90,6 +90,10 @@ def main(argv=None):
         if a.replay:
             with open(a.replay) as fh:
                 body = json.load(fh)
+            if isinstance(body.get('case'), dict) and body['case'].get('kind') == 'unhandled':
+                print('%s: this record is an exception raised inside pyPRISM during exploration (%s); it has no single-case replay - rerun ./check %s'
+                      % (pid, body.get('msg', '')[:200], pid))
+                return 1
             obs = []
             for _ in range(2):          # replay twice: observations must agree
                 r = Rec(pid)
@@ -117,10 +121,17 @@ def main(argv=None):
     except HarnessError as e:
         print('HARNESS-ERROR %s: %s' % (pid, e))
         return 2
-    except Exception:
-        traceback.print_exc()
-        print('HARNESS-ERROR %s: unexpected exception in the harness' % pid)
-        return 2
+    except Exception as e:
+        if core.raised_in_library(e) and not a.replay:
+            # the library under test raised where the driver did not anticipate it: a finding about the code, not about the harness
+            rec.fail({'kind': 'unhandled', 'item': 'main process'},
+                     'pyPRISM raised %s: %s during the exploration (no oracle could be evaluated)' % (type(e).__name__, str(e)[:120]),
+                     {'kind': 'unhandled-library-exception', 'exc': type(e).__name__},
+                     detail={'traceback': traceback.format_exception(type(e), e, e.__traceback__)[-6:]})
+        else:
+            traceback.print_exc()
+            print('HARNESS-ERROR %s: unexpected exception in the harness' % pid)
+            return 2
 
     # classify (by tag signature: every violation carries tags, records are kept per signature)
     known_hits = {}
